@@ -47,7 +47,7 @@ def real_holder(repo, it, path, clsname, name, func, live_names, attrs):
     mcalc = it.find_method(cls, '_calculate')
     if mcalc is None:
         raise AnalysisError(f'{clsname}._calculate vanished')
-    o.attrs.update({'_model': 'law', '_func': func, '_func_array': func, '_func_array_defined': False, '_inputs': (), '_live_inputs': None, '_debug_mode_on': False,
+    o.attrs.update({'_model': 'law', '_func': func, '_func_array': func, '_func_array_defined': False, '_inputs': (X.atom(f'model_constant[{name}]', 'pos'),), '_live_inputs': None, '_debug_mode_on': False,
                     '_calc_to_use': FuncRef(mcalc[0], mcalc[1], cls=mcalc[2], bound=o), 'get_live_args': (lambda o=o: tuple(prop(it, o, n_) for n_ in live_names))})
     return o
 
@@ -116,19 +116,19 @@ def build(repo, it, st, obliq_on, layer_names=('core', 'mantle', 'crust'), tidal
             common = {'_layer': lay, '_world': s.world, '_rheology_class': rhe}
             lay.attrs.setdefault('_pressure', None); lay.attrs.setdefault('use_pressure_in_strength_calc', False)
             rhe.attrs['_viscosity_model'] = real_holder(repo, it, 'TidalPy/rheology/viscosity/viscosity.py', 'SolidViscosity', f'viscosity_model[{nm}]',
-                                                        (lambda T, *rest, ident=ident: X.fn('eta_solid', X.lift(T), ident)), ('temperature',), dict(common, _viscosity=None))
+                                                        (lambda T, *rest, ident=ident: X.fn('eta_solid', X.lift(T), *[X.lift(r_) for r_ in rest], ident)), ('temperature',), dict(common, _viscosity=None))
             rhe.attrs['_liquid_viscosity_model'] = real_holder(repo, it, 'TidalPy/rheology/viscosity/viscosity.py', 'LiquidViscosity', f'liquid_viscosity_model[{nm}]',
-                                                               (lambda T, *rest, ident=ident: X.fn('eta_liquid', X.lift(T), ident)), ('temperature',), dict(common, _viscosity=None))
+                                                               (lambda T, *rest, ident=ident: X.fn('eta_liquid', X.lift(T), *[X.lift(r_) for r_ in rest], ident)), ('temperature',), dict(common, _viscosity=None))
 
             def melt_law(melt, T, ev, el, mu0, *rest, ident=ident):
-                a_ = [X.lift(v_) for v_ in (melt, T, ev, el, mu0)]
+                a_ = [X.lift(v_) for v_ in (melt, T, ev, el, mu0) + tuple(rest)]
                 return X.fn('eta_post', *a_, ident), X.fn('mu_post', *a_, ident)
             rhe.attrs['_partial_melting_model'] = real_holder(repo, it, 'TidalPy/rheology/partial_melt/partialmelt.py', 'PartialMelt', f'partial_melting_model[{nm}]', melt_law,
                                                               ('temperature', 'premelt_viscosity', 'liquid_viscosity', 'premelt_shear'),
                                                               dict(common, solidus=X.atom(f'solidus_{nm}', 'pos'), liquidus=X.atom(f'liquidus_{nm}', 'pos'), use_partial_melt=True,
                                                                    _melt_fraction=None, _postmelt_viscosity=None, _postmelt_shear_modulus=None, _postmelt_compliance=None))
             rhe.attrs['_complex_compliance_model'] = real_holder(repo, it, 'TidalPy/rheology/complex_compliance/complex_compliance.py', 'ComplexCompliance', f'complex_compliance_model[{nm}]',
-                                                                 (lambda fq, comp, eta, *rest, ident=ident: X.fn('J_model', X.lift(fq), X.lift(eta), X.lift(comp), ident, X.I)),
+                                                                 (lambda fq, comp, eta, *rest, ident=ident: X.fn('J_model', X.lift(fq), X.lift(eta), X.lift(comp), *[X.lift(r_) for r_ in rest], ident, X.I)),
                                                                  ('compliance', 'viscosity'), dict(common, _complex_compliances=None))
             lay.attrs['_rheology'] = rhe
             lay.attrs['_cooling_model'] = model_stub('cooling_model', NOOP, model='off', _cooling=None, _cooling_flux=None)
